@@ -173,8 +173,10 @@ class ThriftMuxMessageSerializerSink(ClientMessageSink):
       A tuple of (message_type, tag)
     """
     header, = unpack('!i', stream.read(4))
-    msg_type = (256 - (header >> 24 & 0xff)) * -1
-    tag = ((header << 8) & 0xFFFFFFFF) >> 8
+    # header is a signed 32-bit value: the arithmetic shift keeps the sign of
+    # the (signed) type byte.
+    msg_type = header >> 24
+    tag = header & 0xFFFFFF
     return msg_type, tag
 
   def AsyncProcessRequest(self, sink_stack, msg, stream, headers):
